@@ -106,13 +106,7 @@ func (e *Exec) fetchModel() Model {
 }
 
 func (e *Exec) bvInputs() []*Term {
-	var r []*Term
-	for _, t := range e.inputs {
-		if t.sort.K == KBV || t.sort.K == KBool {
-			r = append(r, t)
-		}
-	}
-	return r
+	return e.inputs // bit-vector, Bool, Int and Real inputs alike (Int/Real values are parsed as numerals)
 }
 
 func (e *Exec) modelSays(c *Term) (bool, bool) {
@@ -463,8 +457,9 @@ func (e *Exec) reportViolation(kind, id, msg string, extra *Term, where string) 
 	v := Violation{Harness: e.h.Name, ID: id, Kind: kind, Msg: msg, Inputs: map[string]uint64{}, Params: e.h.Params, Known: e.known, Where: where}
 	if m != nil {
 		for _, in := range e.inputs {
-			if in.sort.K == KBV || in.sort.K == KBool {
-				v.Inputs[in.name] = m[in.name]
+			v.Inputs[in.name] = m[in.name]
+			if in.sort.K == KReal {
+				v.Inputs[in.name] = m[in.name+"@f64"] // float64 bit pattern of the (rational) model value
 			}
 		}
 	}
